@@ -43,7 +43,11 @@ Dropped(s, kws) ==
 IsBlankLine(l) == \A i \in 1..Len(l) : l[i] \in Blank
 
 (* what must be found in the backend: nothing, or the non-blank lines verbatim *)
-Expected(s, kws) == IF Dropped(s, kws) THEN <<>> ELSE SelectSeq(Lines(s), LAMBDA l : ~IsBlankLine(l))
+StripCR(l) == IF l # <<>> /\ l[Len(l)] = "\r" THEN SubSeq(l, 1, Len(l) - 1) ELSE l
+(* (a reader of the written file that knows CRLF line ends, HAProxy included, does not see a carriage return that ends a line) *)
+Expected(s, kws) ==
+    IF Dropped(s, kws) THEN <<>>
+    ELSE LET ls == SelectSeq(Lines(s), LAMBDA l : ~IsBlankLine(l)) IN [i \in 1..Len(ls) |-> StripCR(ls[i])]
 
 ---------------------------------------------------------------------------
 VARIABLE txt
@@ -52,5 +56,13 @@ Texts(n) == IF n = 0 THEN {<<>>} ELSE Texts(n - 1) \cup {Append(t, c) : t \in {x
 Init == txt \in Texts(MaxLen)
 Next == UNCHANGED txt
 Spec == Init /\ [][Next]_txt
+(* mixed line ends: two or three short lines joined by LF or CRLF in every combination (a value edited on two systems) *)
+ShortLines == {<<"a">>, <<"b">>, <<" ", "a">>, <<"A">>}
+Seps == {<<"\n">>, <<"\r", "\n">>}
+MixedTexts == {l1 \o s1 \o l2 : l1 \in ShortLines, l2 \in ShortLines, s1 \in Seps}
+              \cup {l1 \o s1 \o l2 \o s2 \o l3 : l1 \in ShortLines, l2 \in ShortLines, l3 \in ShortLines, s1 \in Seps, s2 \in Seps}
+InitMixed == txt \in MixedTexts
+SpecMixed == InitMixed /\ [][Next]_txt
+
 Emit == PrintT(<<"BEHAVIOUR", ToJson(txt)>>)
 =============================================================================
